@@ -27,6 +27,10 @@ func readPacket(r io.Reader) (packetType, byte, []byte, error) {
 	pktFlag := buf[0] & 0x0F
 	var remainingLength int
 	for shift := uint(0); ; shift += 7 {
+		if shift > 21 {
+			// Remaining length field is up to four bytes. (MQTT 3.1.1 spec. 2.2.3)
+			return 0, 0, nil, wrapError(ErrInvalidPacketLength, "reading remaining length")
+		}
 		remainingLength |= (int(buf[1]) & 0x7F) << shift
 		if buf[1]&0x80 == 0 {
 			break
